@@ -574,6 +574,11 @@ func checkChallengeAtomic(c *km.Ctx, ls *km.LockSets, rule string) {
 				}
 			}
 		}
+		if one && cc.call != nil && !cc.dominatesIn(cc.call) {
+			// the helper that looks the record up hands it back on a path on which it has not deleted it: the
+			// consumption then happens later, in another critical section
+			one = false
+		}
 		r.Add(rule, km.FuncName(fn), "challenge lookup + consume", posOf(c, lookup), "lookup and delete under one uninterrupted hold of the state mutex (a challenge presented twice at once is honoured at most once)", sprintf("%v", one), one)
 	}
 
